@@ -152,6 +152,44 @@ func runC19(r *engine.Run) {
 		}
 	})
 
+	// large blocks (an implementation may switch strategy with the amount of work) and high
+	// redundancy (parity indices beyond 8- and 16-bit arithmetic on 1+1001*n)
+	lbM := []int{64, 128, 257, 300}
+	lbSize := []int{3, 16, 64}
+	lbRed := []int{1, 2, 3, 5, 7, 10, 66, 67, 99, 100, 130}
+	spL := (&engine.Space{}).Dim("M", len(lbM)).Dim("fragment size", len(lbSize)).Dim("redundancy", len(lbRed))
+	r.PartDims("large-blocks", spL.Desc(), spL.N(), func(c *engine.Case) {
+		var ch [3]int
+		spL.Decode(c.Index, ch[:])
+		m, size, red := lbM[ch[0]], lbSize[ch[1]], lbRed[ch[2]]
+		data := make([]byte, m*size)
+		for i := range data {
+			data[i] = byte(i*31 + i/size + 7)
+		}
+		c.Eval()
+		frags, err := fragmentation.Encode(append([]byte(nil), data...), size, red)
+		if err != nil || len(frags) != m+red {
+			c.Fail("encode-refuses-valid-arguments", fmt.Sprintf("size=%d M=%d redundancy=%d: %d fragments, err %v", size, m, red, len(frags), err), nil)
+			return
+		}
+		c.NonTrivial()
+		for y := 1; y <= red; y++ {
+			want := make([]byte, size)
+			for k, sel := range spec.MatrixLine(y, m) {
+				if sel {
+					for q := 0; q < size; q++ {
+						want[q] ^= data[k*size+q]
+					}
+				}
+			}
+			if !bytes.Equal(frags[m+y-1], want) {
+				c.Fail("parity-content/large-block", fmt.Sprintf("size=%d M=%d redundancy=%d parity %d: %x, expected %x", size, m, red, y, frags[m+y-1], want), nil)
+				return
+			}
+		}
+		c.Outcome("large-block/ok")
+	})
+
 	// decoder: every erasure pattern of <= 2 lost data fragments
 	r.PartDims("erasure-decoding", []string{"M:1..64", "erasure patterns: C(M,0)+C(M,1)+C(M,2)", "parity received: 8"}, 64, func(c *engine.Case) {
 		m := int(c.Index) + 1
